@@ -190,6 +190,16 @@ class World(object):
                 self.parsers[checker] = L.Parser()
             kw['parser'] = self.parsers[checker]
             probe = kw['parser']
+        parser_from = None
+        if as_text and (i + j) % 4 == 1:
+            # ... or a parser built with the documented `language=` argument: the grammar of a sibling
+            # logic producing objects of the checker's logic (CTLS.Parser(language=CTL), ...)
+            parser_from = {'CTL': 'CTLS', 'LTL': 'CTLS', 'CTLS': ('CTL', 'LTL')[(i + j) // 4 % 2]}[checker]
+            pk = (checker, parser_from)
+            if pk not in self.parsers:
+                self.parsers[pk] = fm.lang(parser_from).Parser(language=L)
+            kw['parser'] = self.parsers[pk]
+            self.flags.add('parser built with language= of another logic')
         try:
             with core.quiet():
                 res = L.modelcheck(target, arg, **kw)
@@ -226,7 +236,7 @@ class World(object):
         else:
             mine = ['other', outcome[1]]
         pure = Pristine.get().ask({'K': K, 'naming': naming, 'how': self.structs[i][4], 'f': t, 'objlang': objlang,
-                                   'as_text': as_text, 'checker': checker, 'F': F, 'clone': clone})
+                                   'as_text': as_text, 'checker': checker, 'F': F, 'clone': clone, 'parser_from': parser_from})
         self._bump('compared with a process without history')
         if pure != mine:
             return ('%s.modelcheck(structure #%d, formula #%d %r%s) answers %s after this call history but %s '
